@@ -20,7 +20,7 @@ from hashlib import sha256
 from .name import Name, Component
 from .signer import Signer
 from .tlv_type import VarBinaryStr, BinaryStr, NonStrictName, FormalName
-from .tlv_var import parse_and_check_tl, shrink_length
+from .tlv_var import parse_and_check_tl, parse_tl_num, shrink_length
 from .tlv_model import TlvModel, InterestNameField, BoolField, UintField, \
     SignatureValueField, OffsetMarker, BytesField, ModelField, NameField, \
     ProcedureArgument, RepeatedField, DecodeError
@@ -460,6 +460,19 @@ def parse_interest(wire: BinaryStr, with_tl: bool = True) -> Interest:
     """
     if with_tl:
         wire = parse_and_check_tl(wire, TypeNumber.INTEREST)
+    # An Interest has one ApplicationParameters element at most. The model parser would skip a second one as an
+    # unknown field - while the signature still covers it: a name component of type 36 moved out of the Name would
+    # become the parameters of a validly signed Interest with another name
+    offset = 0
+    seen_app_param = False
+    while offset < len(wire):
+        typ, size_typ = parse_tl_num(wire, offset)
+        length, size_len = parse_tl_num(wire, offset + size_typ)
+        offset += size_typ + size_len + length
+        if typ == TypeNumber.APPLICATION_PARAMETERS:
+            if seen_app_param:
+                raise DecodeError('an Interest has at most one ApplicationParameters element')
+            seen_app_param = True
     markers = {}
     ret = InterestPacketValue.parse(wire, markers)
     if 'name' not in ret.__dict__:
